@@ -23,7 +23,7 @@ RULE = ("cases = generated specifications (filter families: state x choice with/
         "excluded states, none) x every period x jit_filter on/off; distinct = structural signature; evaluations = (specification, period) "
         "spaces compared")
 ASSUMPTIONS = ["filters over discrete variables and the period only (C17's quantifier)"]
-FORCES = [["filter"], ["f1two"], ["filter", "eqsize"], ["f1"], ["mixed"], ["filter", "stoch"], ["nofilter"], None, ["f1", "constraint"], ["filter", "cont2"], ["filter", "bigdisc"], ["f1", "bigdisc"]]
+FORCES = [["filter"], ["f1two"], ["filter", "eqsize"], ["f1"], ["mixed"], ["filter", "stoch"], ["nofilter"], None, ["f1", "constraint"], ["filter", "cont2"], ["filter", "bigdisc"], ["f1", "bigdisc"], ["filter", "stackedfilter"], ["mixed", "stackedfilter"], ["filter", "intfilter"], ["f1", "intfilter"]]
 
 
 def cases(seed, tier):
